@@ -34,6 +34,7 @@ DECIMAL = ("2000", "20000")              # 2 mL and 20 mmol per model unit (W: 1
 MICRO = ("36.0306", "1")                 # 36 uL / 1 umol per unit (a heavy solute): the scale of a well, where absolute
                                          # thresholds and roundings in base units (mol, L) show
 NANO = ("36.0306", "0.00137")             # 36 uL / 1.37 nmol per unit (not a multiple of 0.1 nmol): one step from the initial state only
+PICO = ("36.0306", "0.00037")            # 36 uL / 0.37 nmol per unit: residues and aliquots below a nanomole (and below 1e-3 storage units)
 NANOSOL = ("3.603061", "0.00137")        # 3.6 uL / 1.37 nmol per unit: solutions made from nanomoles of stock and of solvent
 TINY = ("36.0306", "0.1")                # 36 uL / 0.1 umol per unit: sub-micromole amounts (a heavy solute)
 BIG = ("1801530", "100000000")           # 1.8 L / 100 mol per unit: stays far above the rounding quantum of every storage configuration
@@ -254,6 +255,10 @@ def plan(prop, tier, seed):
     skipadm = {"VERIF_SKIP_ADMISSIBLE": "1"}
     if prop in ("C02", "C03", "C10", "C11"):
         legs.append(lambda: lab_leg("LabCF", 1, 2, NANO, seed, env_extra=skipadm, tag="nano"))
+    if prop in ("C01", "C02", "C03"):
+        # sub-nanomole residues: whatever stays behind or arrives, however little, is accounted for
+        legs.append(lambda: lab_leg("LabCC", 1, 2, PICO, seed, env_extra=skipadm, tag="pico"))
+        legs.append(lambda: lab_leg("LabPL", 1, 8, PICO, seed, env_extra=skipadm, tag="pico"))
     if prop in ("C05", "C12", "C03", "C10"):
         legs.append(lambda: lab_leg("LabSOL", 1, 8, MICRO, seed, env_extra=skipadm, overrides=None if q else {"SolCases": "SOL_Cases", "FromCases": "SOL_FromFull"}, tag="micro"))
     if prop in ("C05", "C12"):
